@@ -11,6 +11,7 @@ import (
 	"sort"
 	"strconv"
 	"strings"
+	"syscall"
 	"testing"
 	"testing/synctest"
 	"time"
@@ -534,14 +535,22 @@ func startWatchdog(out *WorkerOut, write func()) {
 	go func() {
 		last := Progress.Load()
 		lastChange := time.Now()
+		cpuAtChange := processCPU()
 		for {
 			time.Sleep(500 * time.Millisecond)
 			cur := Progress.Load()
 			if cur != last {
-				last, lastChange = cur, time.Now()
+				last, lastChange, cpuAtChange = cur, time.Now(), processCPU()
 				continue
 			}
 			if time.Since(lastChange) > limit {
+				// A spin burns processor time. A process that has hardly run
+				// since its last progress was held up from outside (a write to
+				// a stalled disk, a frozen machine): that is not a finding and
+				// not the harness's fault either; wait on, up to four limits.
+				if processCPU()-cpuAtChange < limit/10 && time.Since(lastChange) < 4*limit {
+					continue
+				}
 				buf := make([]byte, 1<<20)
 				n := runtime.Stack(buf, true)
 				out.Hang = string(buf[:n])
@@ -552,4 +561,13 @@ func startWatchdog(out *WorkerOut, write func()) {
 			}
 		}
 	}()
+}
+
+// processCPU is the processor time (user + system) this process has used.
+func processCPU() time.Duration {
+	var ru syscall.Rusage
+	if syscall.Getrusage(syscall.RUSAGE_SELF, &ru) != nil {
+		return 0
+	}
+	return time.Duration(ru.Utime.Nano() + ru.Stime.Nano())
 }
